@@ -58,8 +58,8 @@ def table_scripts(ctx):
     rows = {}
     for s in r.emitted():
         rows[tuple(s["row"])] = s
-    if len(rows) != 17 * 16 + 4 * 8:
-        raise vlib.Inconclusive("the C03 table has %d rows, expected %d" % (len(rows), 17 * 16 + 4 * 8))
+    if len(rows) != 18 * 16 + 4 * 8:
+        raise vlib.Inconclusive("the C03 table has %d rows, expected %d" % (len(rows), 18 * 16 + 4 * 8))
     return [rows[k] for k in sorted(rows)], r
 
 
@@ -234,7 +234,7 @@ def run(ctx):
     vlib.finish(ctx, LEVEL, {
         "traces_validated_against_impl": tstat["accepted"] + sstat["accepted"],
         "evaluations": len(allscripts), "distinct_nontrivial": distinct,
-        "rule": "table: every row of flags (4) x reader privileges (4) x access path (17 interface paths, 8 database-API paths "
+        "rule": "table: every row of flags (4) x reader privileges (4) x access path (18 interface paths, 8 database-API paths "
                 "for the API's fixed privileges), enumerated by TLC from spec/RecordAccessGen.tla (Mode table) and executed on "
                 "every backend of the tier (+ injected runtime database), shadow delete on/off, typed and wrapped records; "
                 "histories: TLC -simulate (Mode sim, flavour c03), one backend each.  non-trivial = a secret or crown-jewel "
@@ -246,7 +246,7 @@ def run(ctx):
         "backends": backends(ctx) + ["runtime"],
         "samples": [rows[37], tscripts[5], sscripts[0]],
         "exhaustive": False,
-        "exhaustive_note": "exhaustive: the C03 table (304 rows) and the reachable states of the breadth-first domains; sampled: histories",
+        "exhaustive_note": "exhaustive: the C03 table (320 rows) and the reachable states of the breadth-first domains; sampled: histories",
     }, ["spec/RecordAccess.tla is the oracle; every call may fail with an error of class 'other' if it changes nothing "
         "(optional capabilities: Purge, PutMany, Delete on injected databases); the share of such calls is reported",
         "a cached interface is used exclusively (documented caveat of Options.CacheSize): nobody else writes what it has "
